@@ -108,12 +108,13 @@ Inductive op :=
   (* calls that raise: the engine rejects the first write statement (duplicate bucket id,
      unknown bucket -> NOT NULL bucketrow), or update_bucket is given no field *)
   | Rejected
-  (* insert_many whose bulk statement raises on row |done|+1: the upserts ran, the rows
-     before the failing one stay in the open transaction, conditional_commit is not
-     reached.  done = []: unknown bucket (NOT NULL bucketrow on the first row).
-     done <> []: a row whose start/end does not fit SQLite's 64-bit INTEGER
+  (* insert_many whose bulk statement raises on row |done|+1 of |done|+rest: the upserts
+     ran, the rows before the failing one stay in the open transaction, and (try/finally,
+     since ec39c3d) conditional_commit still runs with the length of ALL rows — an
+     over-count, which is safe.  done = []: unknown bucket (NOT NULL bucketrow on the first
+     row).  done <> []: a row whose start/end does not fit SQLite's 64-bit INTEGER
      (OverflowError at bind time) after rows that were fine. *)
-  | InsertManyFailed (ups done : list Z).
+  | InsertManyFailed (ups done : list Z) (rest : nat).
 
 Definition script_replace (w : Z) : list micro := [Exec w; CondCommit 1].
 Definition script_get_metadata : list micro := [Read].
@@ -135,15 +136,11 @@ Definition expand (o : op) : list micro :=
   | Buckets => [Read]
   | GetMetadata => script_get_metadata
   | Rejected => []
-  | InsertManyFailed ups done => flat_map script_replace ups ++ [ExecMany done]
+  | InsertManyFailed ups done rest =>
+      flat_map script_replace ups ++ [ExecMany done; CondCommit (Z.of_nat (length done + rest))]
   end.
 
 Definition expand_all (h : list op) : list micro := flat_map expand h.
-
-(* calls all of whose writes are counted (or committed) before they return: everything
-   except a bulk insert that failed after at least one row *)
-Definition counted (o : op) : Prop :=
-  match o with InsertManyFailed _ (_ :: _) => False | _ => True end.
 
 (* the writes a micro-step sequence issues, in issue order *)
 Definition writes_of_micro (m : micro) : list Z :=
